@@ -110,7 +110,48 @@ def replay_transaction(w, rec):
   if sock.writes:
     text.append('clock == deadline (TimeoutError already delivered): the transport still wrote %r to the connection' % (sock.writes[0],))
     bad = True
-  return bad, '\n'.join(text) if text else 'reconnect failure faults the transport; nothing written at the deadline'
+  # (c) the reply arrives in small segments: the outcome must not depend on how the bytes are split across reads
+  import gevent as _g
+  for first in (1, 2, 3, 4, 6):
+    payload = b'hello-reply'
+    wire = __import__('struct').pack('!i', len(payload)) + payload
+    class SegSock(FakeSocket):
+      def __init__(self):
+        FakeSocket.__init__(self)
+        self.buf = wire
+        self.first = first
+      def read(self, n):            # one segment per call: never more than what has "arrived"
+        k = min(n, self.first if self.first else 5)
+        self.first = 0
+        out, self.buf = self.buf[:k], self.buf[k:]
+        return out
+      def readAll(self, n):
+        out = b''
+        while len(out) < n:
+          chunk = self.read(n - len(out))
+          if not chunk:
+            raise EOFError()
+          out += chunk
+        return out
+    sock = SegSock()
+    sink = make_sink(sock)
+    got_stream = []
+    class Rec2(object):
+      def AsyncProcessResponse(self, sink_stack, context, stream, msg):
+        got_stream.append((stream.getvalue() if stream is not None else None, msg))
+    stack = ClientMessageSinkStack(); stack.Push(Rec2(), None)
+    try:
+      sink._AsyncProcessTransaction(b'request', stack, None)
+      _g.sleep(0); _g.sleep(0)
+    except BaseException as e:
+      text.append('reply split after %d byte(s): %s escapes' % (first, type(e).__name__)); bad = True
+      continue
+    if len(got_stream) != 1 or got_stream[0][0] != payload:
+      what = got_stream[0] if got_stream else None
+      text.append('reply split after %d byte(s): caller received %r instead of the %d-byte reply' % (
+        first, (what[0], getattr(what[1], 'error', None)) if what else None, len(payload)))
+      bad = True
+  return bad, '\n'.join(text) if text else 'reconnect failure faults the transport; nothing written at the deadline; reply independent of segmentation'
 
 
 REPLAYS = {
